@@ -1,4 +1,4 @@
-/* LD_PRELOAD shim: freezes CLOCK_REALTIME at VERIF_FAKE_EPOCH (seconds) for the real CLI binary. */
+/* LD_PRELOAD shim: freezes CLOCK_REALTIME at VERIF_FAKE_EPOCH (seconds; nanoseconds from VERIF_FAKE_EPOCH_NS) for the real CLI binary. */
 #define _GNU_SOURCE
 #include <stdlib.h>
 #include <time.h>
@@ -9,7 +9,8 @@ int clock_gettime(clockid_t clk, struct timespec *ts) {
     const char *e = getenv("VERIF_FAKE_EPOCH");
     if (clk == CLOCK_REALTIME && e) {
         ts->tv_sec = (time_t)atoll(e);
-        ts->tv_nsec = 0;
+        const char *n = getenv("VERIF_FAKE_EPOCH_NS");
+        ts->tv_nsec = n ? atol(n) : 0;
         return 0;
     }
     return (int)syscall(SYS_clock_gettime, clk, ts);
